@@ -3,7 +3,7 @@
    readers; values are multi-word and are copied word by word, so tearing is expressible. *)
 From Coq Require Import List String Arith Bool.
 From AM Require Import Rust.Ast Rust.Script Ref.RwCell Gen.Entry Proofs.RwProof Proofs.RwStep Proofs.RwPin
-  Tie.Entry Tie.CallGraph.
+  Tie.Entry Tie.CallGraph Gen.HotReloading Tie.Answers.
 From AM Require Proofs.AnsInv Proofs.AnsC.
 Import ListNotations.
 
@@ -26,6 +26,13 @@ Theorem C07_every_reader_takes_the_lock :
   static_get_wf EntryStorage_get = true /\
   via_read Handle_copied = true /\ via_read Handle_cloned = true.
 Proof. exact (conj value_cell_touched_only_by (conj static_get_refuses_reloadable copies_go_through_a_guard)). Qed.
+
+(* 1c. the lock the discipline speaks of is a real reader-writer lock: the wrapper's read / write
+       are the wrapped lock's read / write (std and parking_lot) *)
+Theorem C07_lock_wrapper_is_faithful :
+  takes "read" Gen.Private.RwLock_read = true /\ takes "write" Gen.Private.RwLock_write = true /\
+  takes "read" Gen.Private.RwLock_read_pl = true /\ takes "write" Gen.Private.RwLock_write_pl = true.
+Proof. exact rwlock_wrapper_is_faithful. Qed.
 
 (* 2. No torn reads: for EVERY family of scripts the checker accepts, any number of threads and
       every schedule, each completed read returned all the words of one version. *)
@@ -69,6 +76,21 @@ Qed.
 (* 5. Local mode: while the reloader runs the update for token t (pc R1 t) the caller that sent t
       is still inside hot_reload (waiting), and when a caller is released by token t the update
       for t is over (t is neither queued nor in progress). *)
+(* the protocol those two theorems are about is the one the code runs: hot_reload sends its token
+   and waits -- with an unbounded `wait_while` that loops -- until exactly that token is answered;
+   the reloader answers a token only after the update it asked for *)
+Theorem C07_code_hot_reload_waits_for_its_own_answer :
+  mailbox_acts Answers_wait_for_answer = consumer_shape /\
+  mailbox_acts Answers_notify = producer_shape /\
+  reload_wf HotReloader_reload = true /\
+  ptr_arm_wf hot_reloading_thread = true /\
+  (wait_while_wf Gen.Private.Condvar_wait_while = true /\
+   wait_while_wf Gen.Private.Condvar_wait_while_pl = true).
+Proof.
+  exact (conj wait_for_answer_is_consumer (conj notify_is_producer (conj reload_is_caller
+        (conj thread_answers_each_ptr wait_while_loops)))).
+Qed.
+
 Theorem C07_update_happens_inside_the_callers_hot_reload : forall s, AnsC.steps AnsInv.init s ->
   forall t, AnsInv.rl s = AnsInv.R1 t -> exists i, AnsInv.wait_c (AnsInv.cs s i) t.
 Proof.
